@@ -216,8 +216,13 @@ def propagation(case, ctx):
     m = model.from_spec(sp)
     nd = m.ndim
 
+    dimkey = m.dims[case["pick"] % nd] if case["pick"] % 3 == 0 else None
+
     def fresh():
-        return gen.build(sp)            # carries sentinel attrs + axis sentinels
+        a_ = gen.build(sp)            # carries sentinel attrs + axis sentinels
+        if dimkey:
+            a_._attrs[dimkey] = 'metadata whose key equals a dimension name'
+        return a_
     k = rng.randrange(nd)
     d = m.dims[k]
     lab = m.labels[k]
@@ -297,12 +302,18 @@ def propagation(case, ctx):
         if not common.is_da(res):
             continue
         monitors.COUNTS['meta_checks'] += 1
+        if dimkey and fate == 'carry':
+            if res.attrs.get(dimkey) != 'metadata whose key equals a dimension name':
+                ctx.v(ID, "propagation-carry-dimkey:" + name, "%s: attrs[%r] (a key equal to a dimension name) not carried: attrs=%r" % (label, dimkey, res.attrs))
+            res._attrs.pop(dimkey, None)
+            if dimkey in a.dims and not model.labels_eq(a.axes[dimkey].values.tolist(), m.labels[m.dims.index(dimkey)]):
+                ctx.v(ID, "propagation-dimkey-overwrote-labels:" + name, "%s: the source's labels of %r were overwritten by the metadata entry" % (label, dimkey))
         p = monitors.meta_ok(res, fate)
         if p:
             ctx.v(ID, "propagation-%s:%s" % (fate, name), "%s: %s" % (label, p))
         if fate == 'carry':
             # carried unchanged, and the source's metadata is untouched
-            if monitors.freeze(a.attrs) != monitors.freeze(monitors.sentinel_attrs()):
+            if monitors.freeze({k_: v_ for k_, v_ in a.attrs.items() if k_ != dimkey}) != monitors.freeze(monitors.sentinel_attrs()):
                 ctx.v(ID, "propagation-source-touched:" + name, "%s: source attrs now %r" % (label, a.attrs))
         if axis_kept is not None and axis_kept in res.dims:
             got = res.axes[axis_kept].attrs
